@@ -9,6 +9,8 @@
 #include <algorithm>
 #include <set>
 #include <deque>
+#include <memory>
+#include <cstring>
 
 using namespace vh;
 using namespace ipr;
@@ -148,7 +150,19 @@ struct Harness {
       const Lexicon& L = lex;
       std::string key; const void* node = nullptr; const Node* asnode = nullptr; Category_code cat = Category_code::Unknown;
       bool is_constant = false;          // the answer must be a process-wide constant, not a table node
-      auto u8 = widen(r.word);
+      // the spelling as the callee sees it: a view of a terminated string of its own, of an exact-size unterminated heap
+      // buffer, or of the front of a longer buffer (continued so as to spell another reserved word where one exists, else by
+      // arbitrary text) -- what is asked is what the view covers
+      std::string carrier; std::unique_ptr<char8_t[]> exact;
+      util::word_view u8 = widen(r.word);
+      switch ((variant >> 4) & 3) {
+      case 1: exact.reset(new char8_t[r.word.size() ? r.word.size() : 1]); std::memcpy(exact.get(), r.word.data(), r.word.size()); u8 = util::word_view(exact.get(), r.word.size()); ctx().count("spellings_in_an_unterminated_buffer"); break;
+      case 2: { carrier = r.word + (rng.chance(50) ? " long" : "_t");
+                for (auto w : reserved_words) { std::string rw = narrow(w); if (rw.size() > r.word.size() && rw.compare(0, r.word.size(), r.word) == 0) { carrier = rw; break; } }
+                u8 = util::word_view(reinterpret_cast<const char8_t*>(carrier.data()), r.word.size()); ctx().count("spellings_as_the_front_of_a_longer_buffer"); break; }
+      case 3: carrier = r.word + std::string("+16 x;").substr(rng.below(5)); u8 = util::word_view(reinterpret_cast<const char8_t*>(carrier.data()), r.word.size()); ctx().count("spellings_as_the_front_of_a_longer_buffer"); break;
+      default: break;
+      }
       switch (r.ctor) {
       case IDENT: {
          auto& n = (variant & 1) ? lex.get_identifier(str(r.word, variant)) : lex.get_identifier(u8);
@@ -268,12 +282,12 @@ struct Harness {
          words.push_back(w);
          const int ctors[] = { IDENT, OPER, LOGO, LITERAL, LINKAGE, CONVENTION };
          Req r; r.ctor = ctors[rng.below(6)]; r.word = w; r.type = rng.pick(types);
-         execute(r, int(rng.below(16))); history.push_back(r);
+         execute(r, int(rng.below(64))); history.push_back(r);
          // ordinary requests in between, some of them for short new words
          for (int k = 0; k < 3; ++k) {
             Req q = fresh();
             if (rng.chance(30)) { q.ctor = IDENT; q.word = "late" + std::to_string(serial) + "_" + std::to_string(k); words.push_back(q.word); }
-            execute(q, int(rng.below(16))); history.push_back(q);
+            execute(q, int(rng.below(64))); history.push_back(q);
          }
          ctx().count("bulk_spellings");
       }
@@ -284,7 +298,7 @@ struct Harness {
    {
       std::vector<Req> all(history);
       for (std::size_t i = all.size(); i > 1; --i) std::swap(all[i - 1], all[rng.below(i)]);
-      for (auto& r : all) execute(r, int(rng.below(16)));
+      for (auto& r : all) execute(r, int(rng.below(64)));
       ctx().count("final_replays", (long long)all.size());
    }
 
@@ -403,7 +417,7 @@ static void body(Ctx& C)
           "pairs of a spelling pool; live tables validated through the hook");
    C.assume("the 56 reserved spellings of the pinned tree are the oracle for which identifiers are process-wide constants");
    for (int c = 0; c < NCTOR; ++c) { C.need(std::string("distinct_keys:") + ctor_name[c]); C.need(std::string("re_requests:") + ctor_name[c]); }
-   C.need("string_operands_from_another_lexicon"); C.need("string_operands_free_standing"); C.need("single_identifier_checks"); C.need("reserved_word_checks"); C.need("equality_pairs"); C.need("table_validations");
+   C.need("spellings_in_an_unterminated_buffer"); C.need("spellings_as_the_front_of_a_longer_buffer"); C.need("string_operands_from_another_lexicon"); C.need("string_operands_free_standing"); C.need("single_identifier_checks"); C.need("reserved_word_checks"); C.need("equality_pairs"); C.need("table_validations");
    C.need("string_pool_rollovers_during_name_requests"); C.need("final_replays"); C.need("symbol_route_label"); C.need("symbol_route_this"); C.need("symbol_route_direct");
    const int histories = C.thorough ? 12 : 3;
    const long long nreq = C.thorough ? 150000 : 6000;
@@ -412,8 +426,8 @@ static void body(Ctx& C)
       Harness H(seeds.next());
       H.single_identifier_rule();
       for (long long i = 0; i < nreq; ++i) {
-         if (!H.history.empty() && H.rng.chance(40)) { Req r = H.rng.pick(H.history); H.execute(r, int(H.rng.below(16))); }
-         else { Req r = H.fresh(); H.execute(r, int(H.rng.below(16))); H.history.push_back(r); }
+         if (!H.history.empty() && H.rng.chance(40)) { Req r = H.rng.pick(H.history); H.execute(r, int(H.rng.below(64))); }
+         else { Req r = H.fresh(); H.execute(r, int(H.rng.below(64))); H.history.push_back(r); }
          if ((i + 1) % 4096 == 0) H.quiescent();
       }
       H.bulk_spellings(C.thorough ? 6 : 2);
